@@ -3,6 +3,7 @@ From "every contribution is one identity's own entry" to "the collected sum is t
 the summation argument (commutative monoid) over the files of a directory left by a world history.
 -/
 import PromVerif.Lemmas.MultiprocessCollect
+import PromVerif.Lemmas.MultiprocessFresh
 
 namespace PromVerif.Props.C08
 open PromVerif.Py PromVerif.Generated.Multiprocess
@@ -162,7 +163,8 @@ theorem foldl_ownStep_foreign (vo : VOps V) (p : Str) (us : List (Upd V)) (pids 
     the composition) -/
 theorem world_sum (vo : VOps V) (hcomm : ∀ a b, vo.add a b = vo.add b a)
     (hassoc : ∀ a b c, vo.add (vo.add a b) c = vo.add a (vo.add b c)) (hzero : ∀ a, vo.add vo.zero a = a)
-    (p0 : Str) (hp0 : '_' ∉ p0) (evs : List (Ev V)) (hev : evsIdOK evs) (hu : WUniq vo (St.init p0) evs)
+    (p0 : Str) (hp0 : '_' ∉ p0) (evs : List (Ev V)) (hev : evsIdOK evs)
+    (hu : wFresh vo (St.init p0) (fun _ => true) evs = true)
     (pre : Str) (k : Key) (pids : List Str) (hnd : pids.Nodup) (hpids : ∀ p ∈ pids, '_' ∉ p)
     (hlive : ∀ p ∈ pids, isLiveFileOf p (fileName pre p) = false)
     (hinc : ∀ u ∈ wUpds (wLog vo pre k p0 p0 [] evs), ∃ q a, u = Upd.inc q a ∧ q ∈ pids) :
@@ -172,7 +174,8 @@ theorem world_sum (vo : VOps V) (hcomm : ∀ a b, vo.add a b = vo.add b a)
       = pids.map (fun p => ((wUpds (wLog vo pre k p0 p0 [] evs)).foldl (ownStep vo p) (vo.zero, vo.zero)).1) := by
     apply List.map_congr_left
     intro p hp
-    rw [wrun_cell vo pre k p (hpids p hp) evs (St.init p0) (inv_init vo p0) ⟨hp0, hp0⟩ hev hu, hlive p hp,
+    rw [wrun_cell_fresh vo pre k p (hpids p hp) evs (St.init p0) _ (bound_init p0) (freshInv_init vo p0 _) ⟨hp0, hp0⟩ hev hu,
+      hlive p hp,
       foldl_wOwn_nonlive]
     rfl
   rw [hcell]
